@@ -22,6 +22,7 @@ import (
 	"github.com/kubewharf/kubegateway/pkg/zzverif/vsched"
 
 	"verifh/ev"
+	"verifh/exitpaths"
 	"verifh/lin"
 	"verifh/xa"
 	"verifh/xstate"
@@ -121,8 +122,8 @@ var model = lin.Model{
 type scenarioA struct {
 	name    string
 	m       int32
-	held    int      // requests already admitted (and still in flight) when the threads start
-	threads [][]aop  // per thread; "release" releases what this thread acquired last (or one of the held ones)
+	held    int     // requests already admitted (and still in flight) when the threads start
+	threads [][]aop // per thread; "release" releases what this thread acquired last (or one of the held ones)
 	finalM  int32
 }
 
@@ -516,7 +517,7 @@ func main() {
 	c := ev.Start("C05", "model_checking")
 	c.Assume = []string{
 		"engine A: zoumo/golib lock/maxinflight/max_inflight.go (module cache), flowcontrol.go, flowcontrol_wrapper.go and limiter.go are instrumented; interleavings at statement / atomic-operation granularity under sequential consistency",
-		"a request releases on the object it was handed by GetOrDefault, exactly once, as the dispatcher's `defer Release()` does; the ways a proxied request can end are covered over the real handler chain in C04/C15's rig",
+		"engines A and B: a request releases on the object it was handed by GetOrDefault, exactly once, as the dispatcher's `defer Release()` does; that the dispatcher really does so on every way a proxied request can end (success, upstream error / close / death mid-body, client abort, watch abort, no ready endpoint, all endpoints disabled, upgrade, refusal by the schema itself, connection refused) is enumerated over the real handler chain on loopback HTTP (exit_path_cases; free-running, wall-clock bounds of 20 s)",
 		"a refusal while operations overlap or while requests of an earlier configuration are still in flight is not judged (the property bounds admissions from above and demands full capacity only once everything has finished)",
 	}
 	all := scenarios(true)
@@ -546,11 +547,14 @@ func main() {
 		}
 	}
 	tasks = append(tasks, xstate.Tasks(c, specB(), c.Pick(7, 9), 9)...)
+	// "however it ends": every way a proxied request can end, over the real handler chain (free-running, not scheduled)
+	tasks = append(tasks, ev.Task{Name: "exit-paths", Run: func() { exitpaths.Run(c) }})
 	c.RunTasks(tasks)
 	c.Finish(map[string]interface{}{
 		"states":                        c.Counter("states") + c.Counter("choice_points"),
 		"transitions":                   c.Counter("transitions") + c.Counter("steps"),
 		"traces_validated_against_impl": c.Counter("schedules") + c.Counter("replays"),
+		"exit_path_cases":               c.Counter("exit_path_cases"),
 		"explanation":                   "states/transitions of the reconfiguration-history search on the real upstreamLimiter (engine B) plus decision points/steps of the concurrent acquire/release/resize harnesses (engine A).",
 	})
 }
